@@ -83,14 +83,20 @@ def split_assign(s):
     t, v = s.targets[0], s.value
     if isinstance(t, (ast.Tuple, ast.List)) and isinstance(v, (ast.Tuple, ast.List)) and len(t.elts) == len(v.elts) \
             and not any(isinstance(e, ast.Starred) for e in list(t.elts) + list(v.elts)):
-        tnames = set()
-        for e in t.elts:
-            tnames |= _names(e)
-        if not (tnames & _names(v)):
+        # sequential assignment means the same when no value reads a target that an earlier pair has already overwritten
+        if not any(_names(t.elts[i]) & _names(v.elts[j]) for j in range(len(v.elts)) for i in range(j)):
             res = []
             for te, ve in zip(t.elts, v.elts):
                 res.extend(split_assign(ast.copy_location(ast.Assign(targets=[te], value=ve, lineno=s.lineno), s)))
             return res
+    # a, b = x[-2:]  →  a = x[-2]; b = x[-1]
+    if isinstance(t, (ast.Tuple, ast.List)) and all(isinstance(e, ast.Name) for e in t.elts) and isinstance(v, ast.Subscript) and isinstance(v.value, ast.Name) \
+            and isinstance(v.slice, ast.Slice) and v.slice.upper is None and v.slice.step is None and isinstance(v.slice.lower, ast.UnaryOp) \
+            and isinstance(v.slice.lower.op, ast.USub) and isinstance(v.slice.lower.operand, ast.Constant) and v.slice.lower.operand.value == len(t.elts) \
+            and v.value.id not in {e.id for e in t.elts}:
+        k = len(t.elts)
+        return [ast.copy_location(ast.Assign(targets=[e], value=ast.copy_location(ast.Subscript(value=copy.deepcopy(v.value), slice=ast.UnaryOp(op=ast.USub(), operand=ast.Constant(value=k - i)),
+                                                                                                    ctx=ast.Load()), v), lineno=s.lineno), s) for i, e in enumerate(t.elts)]
     # x = x op e  →  x op= e
     if isinstance(v, ast.BinOp) and isinstance(t, (ast.Name, ast.Subscript, ast.Attribute)) and isinstance(v.op, (ast.Add, ast.Sub, ast.Mult, ast.Div)):
         if _same_target(t, v.left):
@@ -345,6 +351,7 @@ def norm_stmt(s):
 def normalize_tree(tree: ast.Module) -> ast.Module:
     tree = ExprNorm().visit(tree)
     tree.body = norm_block(tree.body)
+    tree = ConstFold().visit(tree)
     ast.fix_missing_locations(tree)
     return tree
 
@@ -379,18 +386,55 @@ def structure_exits(stmts):
                     s.body = structure_exits(list(s.body) + list(rest))
                     out.append(s)
                     return out
+        elif isinstance(s, ast.Try) and not s.finalbody and not s.orelse and s.handlers and always_exits(s.body) and isinstance(s.body[-1], ast.Return) and stmts[i + 1:] \
+                and not all(always_exits(h.body) for h in s.handlers):
+            # the body always returns: what follows the try runs only after a handler that fell through
+            s = copy.copy(s)
+            s.handlers = [copy.copy(h) for h in s.handlers]
+            for h in s.handlers:
+                if not always_exits(h.body):
+                    h.body = structure_exits(list(h.body) + copy.deepcopy(list(stmts[i + 1:])))
+            out.append(s)
+            return out
+        elif isinstance(s, ast.Try) and not s.finalbody and s.handlers and all(always_exits(h.body) for h in s.handlers) and stmts[i + 1:] \
+                and any(isinstance(x, ast.Return) for h in s.handlers for x in h.body):
+            # the statements after a try whose handlers all leave run exactly when no handler ran: they are its else-clause
+            # (an else-clause is not protected by the handlers, like the statements that follow the try)
+            s = copy.copy(s)
+            s.orelse = structure_exits(list(s.orelse) + list(stmts[i + 1:]))
+            out.append(s)
+            return out
         out.append(s)
     return out
 
 
 # --------------------------------------------------------------------------------- inlining
-ANCHOR_PREFIXES = ("_locate_droplets_in_mask", "_get_phase_field", "_make_merge_data", "_merge_data", "_image_deviation", "_write_hdf_dataset",
+ANCHOR_NAMES = {"_locate_droplets_in_mask_cartesian", "_locate_droplets_in_mask_spherical", "_locate_droplets_in_mask_cylindrical_single",
+                "_locate_droplets_in_mask_cylindrical"}
+ANCHOR_PREFIXES = ("_get_phase_field", "_make_merge_data", "_merge_data", "_image_deviation", "_write_hdf_dataset",
                    "_from_hdf_dataset", "_init_data", "_get_mpl_patch", "_args", "_data_array", "_load", "__")
 MAX_HELPER_STMTS = 40
 # nested functions that exist on the reference tree are analysed in place (rules anchor on them); any *other* nested
 # function is a helper introduced by a refactoring and is inlined at its call sites like a private module-level helper
 NESTED_ANCHORS = {"match_tracks", "merge_data", "integrand", "get_position", "get_distance", "_image_deviation", "wrapper", "radius_from_volume",
                   "volume_from_radius", "volume_from_radius_impl", "_surface_from_radius", "ol_surface_from_radius", "surface_from_radius"}
+
+
+TRANSPARENT_DECORATORS = {"register_jitable", "jit", "njit", "nb.jit", "nb.njit", "numba.jit", "numba.njit"}
+
+
+def _decorator_kind(d):
+    """'static' / 'class' / 'property' / 'plain' for decorators that do not change what a call of the helper computes"""
+    t = ast.unparse(d.func if isinstance(d, ast.Call) else d)
+    if t == "staticmethod":
+        return "static"
+    if t == "classmethod":
+        return "class"
+    if t == "property":
+        return "property"
+    if t in TRANSPARENT_DECORATORS:
+        return "plain"
+    return None
 
 
 class _Renamer(ast.NodeTransformer):
@@ -447,6 +491,10 @@ def _returns_only_in_tail(block) -> bool:
                 return False
         elif isinstance(s, (ast.FunctionDef, ast.AsyncFunctionDef, ast.ClassDef)):
             continue
+        elif isinstance(s, ast.With) and last:
+            # `with cm: …; return X` — the value is computed inside the block either way
+            if not _returns_only_in_tail(s.body):
+                return False
         elif any(isinstance(x, ast.Return) for x in ast.walk(s) if not isinstance(x, (ast.FunctionDef, ast.Lambda))):
             return False
     return True
@@ -468,6 +516,10 @@ def _retarget(block, make_store, keep_return):
             s.body = _retarget(s.body, make_store, keep_return)
             s.orelse = _retarget(s.orelse, make_store, keep_return)
             out.append(s)
+        elif isinstance(s, ast.With):
+            s = copy.copy(s)
+            s.body = _retarget(s.body, make_store, keep_return)
+            out.append(s)
         elif isinstance(s, ast.Try):
             s = copy.copy(s)
             s.body = _retarget(s.body, make_store, keep_return)
@@ -478,6 +530,91 @@ def _retarget(block, make_store, keep_return):
             out.append(s)
         else:
             out.append(s)
+    return out
+
+
+def _walk_no_nested(fdef):
+    """nodes of a function body, not descending into nested functions / lambdas / classes"""
+    work = list(fdef.body)
+    while work:
+        n = work.pop()
+        yield n
+        for c in ast.iter_child_nodes(n):
+            if not isinstance(c, (ast.FunctionDef, ast.AsyncFunctionDef, ast.Lambda, ast.ClassDef)):
+                work.append(c)
+
+
+def _single_use(fdef, p) -> bool:
+    """parameter p is read exactly once, at a place that is evaluated exactly once per call and before anything else can
+    change what the argument expression means (first statement level: not in a loop, a comprehension element, a nested
+    function or a branch)"""
+    uses = [n for n in ast.walk(fdef) if isinstance(n, ast.Name) and n.id == p]
+    if len(uses) != 1 or not isinstance(uses[0].ctx, ast.Load):
+        return False
+    u = uses[0]
+    body = [s for s in fdef.body if not (isinstance(s, ast.Expr) and isinstance(s.value, ast.Constant))]
+    if not body:
+        return False
+    first = body[0]
+    if isinstance(first, (ast.If, ast.For, ast.While, ast.Try, ast.With, ast.FunctionDef, ast.ClassDef)):
+        return False
+
+    def once(node):
+        """is u evaluated exactly once when node is evaluated"""
+        if node is u:
+            return True
+        if isinstance(node, (ast.Lambda, ast.IfExp, ast.BoolOp)):
+            return False
+        if isinstance(node, (ast.ListComp, ast.SetComp, ast.GeneratorExp, ast.DictComp)):
+            return once(node.generators[0].iter) if any(x is u for x in ast.walk(node.generators[0].iter)) else False
+        for c in ast.iter_child_nodes(node):
+            if any(x is u for x in ast.walk(c)):
+                return once(c)
+        return False
+
+    return any(x is u for x in ast.walk(first)) and once(first)
+
+
+def _tidy(stmts):
+    """drop `x = x` and bare constants that inlining leaves behind; `if c: <nothing> else: B` becomes `if not c: B`"""
+    out = []
+    for s in stmts:
+        if isinstance(s, ast.Assign) and len(s.targets) == 1 and isinstance(s.targets[0], ast.Name) and isinstance(s.value, ast.Name) and s.value.id == s.targets[0].id:
+            continue
+        if isinstance(s, ast.Assign) and len(s.targets) == 1 and isinstance(s.targets[0], ast.Tuple) and isinstance(s.value, ast.Tuple) \
+                and ast.unparse(s.targets[0]) == ast.unparse(s.value):
+            continue
+        if isinstance(s, ast.Expr) and isinstance(s.value, ast.Constant):
+            continue
+        if isinstance(s, ast.If):
+            s.body = _tidy(s.body)
+            s.orelse = _tidy(s.orelse)
+            if not s.body and not s.orelse:
+                if any(isinstance(x, (ast.Call, ast.NamedExpr)) for x in ast.walk(s.test)):
+                    out.append(ast.copy_location(ast.Expr(value=s.test), s))
+                continue
+            if not s.body:
+                s.test = ExprNorm().visit(ast.copy_location(ast.UnaryOp(op=ast.Not(), operand=s.test), s.test))
+                s.body, s.orelse = s.orelse, []
+        elif isinstance(s, (ast.For, ast.While, ast.With)):
+            s.body = _tidy(s.body) or [ast.copy_location(ast.Pass(), s)]
+        elif isinstance(s, ast.Try):
+            s.body = _tidy(s.body) or [ast.copy_location(ast.Pass(), s)]
+            for h in s.handlers:
+                h.body = _tidy(h.body) or [ast.copy_location(ast.Pass(), s)]
+            s.orelse = _tidy(s.orelse)
+        out.append(s)
+    return out
+
+
+def _blocks_all(fdef):
+    """all statement lists inside a function, nested functions included"""
+    out = []
+    for n in ast.walk(fdef):
+        for fld in ("body", "orelse", "finalbody"):
+            b = getattr(n, fld, None)
+            if isinstance(b, list) and b and isinstance(b[0], ast.stmt):
+                out.append(b)
     return out
 
 
@@ -516,13 +653,19 @@ class Inliner:
                         self.methods[(s.name, m.name)] = m
         self.counter = 0
         self.local = {}  # nested helper name -> FunctionDef (while the enclosing function is processed)
+        self.taken = set()  # names in use in the function that is being processed
+        self.depth = 0
+        self.tuples = {}  # NamedTuple class name -> field names
+        for s in module_tree.body:
+            if isinstance(s, ast.ClassDef) and any(ast.unparse(b).split(".")[-1] == "NamedTuple" for b in s.bases):
+                self.tuples[s.name] = [(m.target.id, m.value) for m in s.body if isinstance(m, ast.AnnAssign) and isinstance(m.target, ast.Name)]
 
     def eligible(self, name, fdef) -> bool:
         if self.local.get(name) is fdef:
             pass
-        elif not name.startswith("_") or any(name.startswith(p) for p in ANCHOR_PREFIXES):
+        elif not name.startswith("_") or name in ANCHOR_NAMES or any(name.startswith(p) for p in ANCHOR_PREFIXES):
             return False
-        if fdef.decorator_list:
+        if any(_decorator_kind(d) is None for d in fdef.decorator_list):
             return False
         if _count_stmts(fdef.body) > MAX_HELPER_STMTS:
             return False
@@ -540,19 +683,36 @@ class Inliner:
             return f.id, self.local[f.id], None
         if isinstance(f, ast.Name) and f.id in self.funcs:
             return f.id, self.funcs[f.id], None
-        if isinstance(f, ast.Attribute) and isinstance(f.value, ast.Name) and f.value.id in ("self", "cls") and cls_name:
-            seen, work = set(), [cls_name]
+        if isinstance(f, ast.Attribute) and isinstance(f.value, ast.Name):
+            start = None
+            if f.value.id in ("self", "cls") and cls_name:
+                start = cls_name
+            elif f.value.id in self.bases:
+                start = f.value.id  # ClassName._helper(…): static and class methods only
+            if start is None:
+                return None
+            seen, work = set(), [start]
             while work:
                 c = work.pop(0)
                 if c in seen:
                     continue
                 seen.add(c)
                 if (c, f.attr) in self.methods:
-                    return f.attr, self.methods[(c, f.attr)], f.value.id
+                    m = self.methods[(c, f.attr)]
+                    kinds = {_decorator_kind(d) for d in m.decorator_list}
+                    if "property" in kinds and not getattr(call, "_property_read", False):
+                        return None  # calling the value of a property
+                    if "static" in kinds:
+                        return f.attr, m, None
+                    if "class" in kinds:
+                        return f.attr, m, "cls" if f.value.id == "cls" else ("type(self)" if f.value.id == "self" else f.value.id)
+                    if f.value.id in ("self", "cls"):
+                        return f.attr, m, f.value.id
+                    return None
                 work.extend(self.bases.get(c, []))
         return None
 
-    def expand_call(self, call, cls_name, store, keep_return, at):
+    def expand_call(self, call, cls_name, store, keep_return, at, ret_target=None):
         """statements replacing a call; ``store(value, at)`` builds the result store"""
         r = self.resolve(call, cls_name)
         if r is None:
@@ -572,7 +732,7 @@ class Inliner:
         bind = {}
         pos = list(params)
         if recv is not None and pos:
-            bind[pos[0]] = ast.Name(id=recv, ctx=ast.Load())
+            bind[pos[0]] = ast.parse(recv, mode="eval").body
             pos = pos[1:]
         if len(call.args) > len(pos):
             return None
@@ -594,16 +754,56 @@ class Inliner:
         mapping = {}
         pre = []
         assigned = {n.id for n in ast.walk(g) if isinstance(n, ast.Name) and isinstance(n.ctx, ast.Store)}
+        arg_names = {n.id for a in bind.values() for n in ast.walk(a) if isinstance(n, ast.Name)}
+        free = {n.id for n in ast.walk(g) if isinstance(n, ast.Name)} - locs
+        taken = self.taken
+
+        def fresh(nm):
+            """the helper's own name when the caller does not use it (an extracted block keeps its variable names)"""
+            if nm not in taken and nm not in arg_names and nm not in free:
+                taken.add(nm)
+                return nm
+            return nm + suffix
+
+        # the variable that carries the result: the caller's target takes its place (`x = helper()` with `return x'` → x' is x)
+        ret_map = {}
+        rets = [n for n in _walk_no_nested(g) if isinstance(n, ast.Return)]
+        if ret_target is not None and rets:
+            tnames = [ret_target] if isinstance(ret_target, ast.Name) else (list(ret_target.elts) if isinstance(ret_target, ast.Tuple) else [])
+            if tnames and all(isinstance(t, ast.Name) for t in tnames) and len({t.id for t in tnames}) == len(tnames):
+                cand = None
+                for rt in rets:
+                    v = rt.value
+                    vs = [v] if len(tnames) == 1 else (list(v.elts) if isinstance(v, ast.Tuple) and len(v.elts) == len(tnames) else None)
+                    if vs is None:
+                        cand = False
+                        break
+                    if all(isinstance(x, ast.Name) for x in vs):
+                        ids = tuple(x.id for x in vs)
+                        if cand is None:
+                            cand = ids
+                        elif cand != ids:
+                            cand = False
+                            break
+                    elif any(isinstance(x, ast.Name) and x.id in locs for x in vs) or len(tnames) > 1:
+                        cand = False
+                        break
+                if cand and len(set(cand)) == len(cand) and all(c in locs and c not in params + kwonly for c in cand):
+                    tid = [t.id for t in tnames]
+                    if not any(t in arg_names or t in free or (t in locs and t not in cand) for t in tid):
+                        ret_map = dict(zip(cand, tid))
         for p, a in bind.items():
             simple = isinstance(a, (ast.Name, ast.Constant)) or (isinstance(a, ast.Attribute) and isinstance(a.value, ast.Name))
+            if not simple and p not in assigned and _single_use(g, p):
+                simple = True  # evaluated once, where the helper uses it
             if simple and p not in assigned:
                 mapping[p] = None  # substitute directly
             else:
-                mapping[p] = p + suffix
-                pre.append(ast.copy_location(ast.Assign(targets=[ast.Name(id=p + suffix, ctx=ast.Store())], value=a, lineno=at.lineno), at))
-        for l in locs:
+                mapping[p] = fresh(p)
+                pre.append(ast.copy_location(ast.Assign(targets=[ast.Name(id=mapping[p], ctx=ast.Store())], value=a, lineno=at.lineno), at))
+        for l in sorted(locs):
             if l not in mapping:
-                mapping[l] = l + suffix
+                mapping[l] = ret_map.get(l) or fresh(l)
 
         class Sub(ast.NodeTransformer):
             def visit_Name(self, n):
@@ -617,7 +817,490 @@ class Inliner:
         body = structure_exits(body)
         body = [Sub().visit(s) for s in body]
         body = _retarget(body, store, keep_return)
-        return pre + body
+        return _tidy(pre + body)
+
+    # -------------------------------------------------------------- preparation of one top-level function
+    def prepare(self, fdef, cls_name):
+        """rewrites that only spell out what a construct means, so that the inliner and the rules see plain calls:
+        `f(**d)` with a literal dict d, `f(*x[-2:])`, `map(helper, a, b)`, reads of private properties"""
+        inl = self
+        # ---- d = {"k": v, …} used only as **d
+        stores = {}
+        for n in ast.walk(fdef):
+            if isinstance(n, ast.Name) and isinstance(n.ctx, (ast.Store, ast.Del)):
+                stores.setdefault(n.id, []).append(n)
+        loops = [n for n in ast.walk(fdef) if isinstance(n, (ast.For, ast.While))]
+        dicts = {}
+        for blk in _blocks_all(fdef):
+            for st in blk:
+                tgt = None
+                if isinstance(st, ast.Assign) and len(st.targets) == 1 and isinstance(st.targets[0], ast.Name):
+                    tgt = st.targets[0]
+                elif isinstance(st, ast.AnnAssign) and isinstance(st.target, ast.Name) and st.value is not None:
+                    tgt = st.target
+                if tgt is None or not isinstance(st.value, ast.Dict) or len(stores.get(tgt.id, [])) != 1:
+                    continue
+                d = st.value
+                if not d.keys or not all(isinstance(k, ast.Constant) and isinstance(k.value, str) for k in d.keys):
+                    continue
+                if any(any(x is st for x in ast.walk(lp)) for lp in loops):
+                    continue
+                # the values mean the same at the calls as at the definition: their names are not assigned afterwards
+                stable = True
+                for v in d.values:
+                    for x in ast.walk(v):
+                        if isinstance(x, ast.Name) and any(getattr(w, "lineno", 0) >= st.lineno for w in stores.get(x.id, [])):
+                            stable = False
+                        if isinstance(x, (ast.Call, ast.NamedExpr, ast.Yield, ast.Await)):
+                            stable = False
+                if stable:
+                    dicts[tgt.id] = (st, d)
+        if dicts:
+            star_uses = {}
+            for c in ast.walk(fdef):
+                if isinstance(c, ast.Call):
+                    for k in c.keywords:
+                        if k.arg is None and isinstance(k.value, ast.Name) and k.value.id in dicts:
+                            star_uses.setdefault(k.value.id, []).append((c, k))
+            for nm, (st, d) in dicts.items():
+                loads = [n for n in ast.walk(fdef) if isinstance(n, ast.Name) and n.id == nm and isinstance(n.ctx, ast.Load)]
+                uses = star_uses.get(nm, [])
+                if not uses or len(loads) != len(uses):
+                    continue  # the dict is also used as an object
+                for c, k in uses:
+                    i = c.keywords.index(k)
+                    c.keywords[i:i + 1] = [ast.keyword(arg=kk.value, value=copy.deepcopy(vv)) for kk, vv in zip(d.keys, d.values)]
+                for blk in _blocks_all(fdef):
+                    if st in blk:
+                        blk[blk.index(st)] = ast.copy_location(ast.Pass(), st)
+
+        # ---- f(*x[-k:]) with a literal k: the last k elements, one by one
+        for c in ast.walk(fdef):
+            if isinstance(c, ast.Call):
+                args = []
+                for a in c.args:
+                    v = a.value if isinstance(a, ast.Starred) else None
+                    if v is not None and isinstance(v, ast.Subscript) and isinstance(v.slice, ast.Slice) and v.slice.upper is None and v.slice.step is None \
+                            and isinstance(v.slice.lower, ast.UnaryOp) and isinstance(v.slice.lower.op, ast.USub) and isinstance(v.slice.lower.operand, ast.Constant) \
+                            and isinstance(v.slice.lower.operand.value, int) and 0 < v.slice.lower.operand.value <= 4 and isinstance(v.value, ast.Name):
+                        k = v.slice.lower.operand.value
+                        for j in range(k, 0, -1):
+                            args.append(ast.copy_location(ast.Subscript(value=copy.deepcopy(v.value), slice=ast.UnaryOp(op=ast.USub(), operand=ast.Constant(value=j)), ctx=ast.Load()), a))
+                    else:
+                        args.append(a)
+                c.args = args
+
+        # ---- name = functools.partial(_helper, a, k=v): a local function that calls the helper with the bound arguments
+        for blk in _blocks_all(fdef):
+            for i, st in enumerate(list(blk)):
+                tgt = None
+                if isinstance(st, ast.Assign) and len(st.targets) == 1 and isinstance(st.targets[0], ast.Name):
+                    tgt = st.targets[0]
+                elif isinstance(st, ast.AnnAssign) and isinstance(st.target, ast.Name) and st.value is not None:
+                    tgt = st.target
+                v = getattr(st, "value", None)
+                if tgt is None or not (isinstance(v, ast.Call) and ast.unparse(v.func) in ("functools.partial", "partial") and v.args and isinstance(v.args[0], ast.Name)):
+                    continue
+                hname = v.args[0].id
+                hdef = self.funcs.get(hname)
+                if hdef is None or not self.eligible(hname, hdef) or any(isinstance(a, ast.Starred) for a in v.args) or any(k.arg is None for k in v.keywords):
+                    continue
+                if hdef.args.vararg or hdef.args.kwarg:
+                    continue
+                pos = hdef.args.posonlyargs + hdef.args.args
+                bound = v.args[1:]
+                kws = {k.arg for k in v.keywords}
+                if len(bound) > len(pos) or any(k not in [a.arg for a in pos + hdef.args.kwonlyargs] for k in kws):
+                    continue
+                n_pos = len(pos)
+                defaults = dict(zip([a.arg for a in pos[n_pos - len(hdef.args.defaults):]], hdef.args.defaults))
+                rest = [a for a in pos[len(bound):] if a.arg not in kws]
+                new_defaults = []
+                seen_default = False
+                okd = True
+                for a in rest:
+                    if a.arg in defaults:
+                        new_defaults.append(copy.deepcopy(defaults[a.arg]))
+                        seen_default = True
+                    elif seen_default:
+                        okd = False
+                if not okd:
+                    continue
+                kwo = [(a, d) for a, d in zip(hdef.args.kwonlyargs, hdef.args.kw_defaults) if a.arg not in kws]
+                call = ast.Call(func=ast.Name(id=hname, ctx=ast.Load()),
+                                args=[copy.deepcopy(b) for b in bound] + [ast.Name(id=a.arg, ctx=ast.Load()) for a in rest],
+                                keywords=[ast.keyword(arg=k.arg, value=copy.deepcopy(k.value)) for k in v.keywords] + [ast.keyword(arg=a.arg, value=ast.Name(id=a.arg, ctx=ast.Load())) for a, _ in kwo])
+                is_proc = not any(isinstance(x, ast.Return) and x.value is not None for x in _walk_no_nested(hdef))
+                body = [ast.Expr(value=call)] if is_proc else [ast.Return(value=call)]
+                fd = ast.FunctionDef(name=tgt.id, args=ast.arguments(posonlyargs=[], args=[ast.arg(arg=a.arg) for a in rest], vararg=None, kwonlyargs=[ast.arg(arg=a.arg) for a, _ in kwo],
+                                                                     kw_defaults=[copy.deepcopy(d) if d is not None else None for _, d in kwo], kwarg=None, defaults=new_defaults),
+                                     body=body, decorator_list=[], returns=None, type_comment=None, lineno=st.lineno)
+                if hasattr(ast, "TypeVar"):
+                    fd.type_params = []
+                blk[blk.index(st)] = ast.fix_missing_locations(ast.copy_location(fd, st))
+
+        # ---- for T in _generator(args): BODY  →  the generator's loop with BODY in place of its yield
+        used_names = {n.id for n in ast.walk(fdef) if isinstance(n, ast.Name)}
+        for blk in _blocks_all(fdef):
+            for st in list(blk):
+                if not (isinstance(st, ast.For) and not st.orelse and isinstance(st.iter, ast.Call) and isinstance(st.iter.func, ast.Name)):
+                    continue
+                gname = st.iter.func.id
+                gdef = self.funcs.get(gname)
+                if gdef is None or not gname.startswith("_") or gdef.decorator_list or gdef.args.vararg or gdef.args.kwarg:
+                    continue
+                rep = self._inline_generator(st, gdef, used_names)
+                if rep is not None:
+                    k = blk.index(st)
+                    blk[k:k + 1] = rep
+
+        # ---- map(helper, a, b) → (helper(x0, x1) for x0, x1 in zip(a, b))
+        nested_defs = {x.name: x for x in ast.walk(fdef) if isinstance(x, ast.FunctionDef) and x is not fdef and x.name not in NESTED_ANCHORS}
+
+        class M(ast.NodeTransformer):
+            def visit_Call(self, n):
+                self.generic_visit(n)
+                if isinstance(n.func, ast.Name) and n.func.id == "map" and len(n.args) >= 2 and not n.keywords and not any(isinstance(a, ast.Starred) for a in n.args):
+                    f = n.args[0]
+                    known = isinstance(f, ast.Name) and (f.id in nested_defs or (f.id in inl.funcs and f.id.startswith("_")))
+                    if known:
+                        inl.counter += 1
+                        vs = [f"_m{inl.counter}_{i}" for i in range(len(n.args) - 1)]
+                        call = ast.Call(func=f, args=[ast.Name(id=v, ctx=ast.Load()) for v in vs], keywords=[])
+                        if len(vs) == 1:
+                            tgt, it = ast.Name(id=vs[0], ctx=ast.Store()), n.args[1]
+                        else:
+                            tgt = ast.Tuple(elts=[ast.Name(id=v, ctx=ast.Store()) for v in vs], ctx=ast.Store())
+                            it = ast.Call(func=ast.Name(id="zip", ctx=ast.Load()), args=list(n.args[1:]), keywords=[])
+                        g = ast.GeneratorExp(elt=call, generators=[ast.comprehension(target=tgt, iter=it, ifs=[], is_async=0)])
+                        return ast.fix_missing_locations(ast.copy_location(g, n))
+                return n
+
+        M().visit(fdef)
+
+        # ---- reads of private properties are calls of their getters
+        if cls_name:
+            class P(ast.NodeTransformer):
+                def visit_Attribute(self, n):
+                    self.generic_visit(n)
+                    if isinstance(n.ctx, ast.Load) and isinstance(n.value, ast.Name) and n.value.id == "self" and n.attr.startswith("_") and not n.attr.startswith("__"):
+                        seen, work = set(), [cls_name]
+                        while work:
+                            c = work.pop(0)
+                            if c in seen:
+                                continue
+                            seen.add(c)
+                            m = inl.methods.get((c, n.attr))
+                            if m is not None:
+                                if any(_decorator_kind(d) == "property" for d in m.decorator_list) and len(m.args.args) == 1:
+                                    call = ast.Call(func=n, args=[], keywords=[])
+                                    call._property_read = True
+                                    return ast.copy_location(call, n)
+                                return n
+                            work.extend(inl.bases.get(c, []))
+                    return n
+
+                def visit_Call(self, n):
+                    # the callee position is not a read of a property value that we want to turn into a call
+                    n.args = [self.visit(a) for a in n.args]
+                    for k in n.keywords:
+                        k.value = self.visit(k.value)
+                    if isinstance(n.func, ast.Attribute):
+                        n.func.value = self.visit(n.func.value)
+                    return n
+
+            P().visit(fdef)
+
+    def _inline_generator(self, loop, gdef, used_names):
+        gbody = [x for x in gdef.body if not (isinstance(x, ast.Expr) and isinstance(x.value, ast.Constant))]
+        if not gbody or not isinstance(gbody[-1], (ast.While, ast.For)) or gbody[-1].orelse:
+            return None
+        pre, L = gbody[:-1], gbody[-1]
+        if any(isinstance(x, (ast.Yield, ast.YieldFrom, ast.Return, ast.Await)) for p_ in pre for x in ast.walk(p_)):
+            return None
+        if any(isinstance(x, (ast.YieldFrom, ast.Await, ast.Global, ast.Nonlocal)) for x in ast.walk(gdef)):
+            return None
+        # yields and returns sit directly in L (under ifs only)
+        found = {"yield": [], "ret": []}
+
+        def scan(stmts, ok):
+            for x in stmts:
+                if isinstance(x, ast.Expr) and isinstance(x.value, ast.Yield):
+                    if not ok:
+                        return False
+                    found["yield"].append(x)
+                elif isinstance(x, ast.Return):
+                    if not ok or x.value is not None:
+                        return False
+                    found["ret"].append(x)
+                elif isinstance(x, ast.If):
+                    if any(isinstance(y, ast.Yield) for y in ast.walk(x.test)):
+                        return False
+                    if not scan(x.body, ok) or not scan(x.orelse, ok):
+                        return False
+                elif isinstance(x, (ast.For, ast.While, ast.Try, ast.With)):
+                    if any(isinstance(y, (ast.Yield, ast.Return)) for y in ast.walk(x)):
+                        return False
+                elif any(isinstance(y, ast.Yield) for y in ast.walk(x)):
+                    return False
+            return True
+
+        if not scan(L.body, True) or len(found["yield"]) != 1 or found["yield"][0].value.value is None:
+            return None
+        # the consumer's body must not `continue` (that would resume the generator after its yield)
+        def has_continue(stmts):
+            for x in stmts:
+                if isinstance(x, ast.Continue):
+                    return True
+                if isinstance(x, (ast.For, ast.While, ast.FunctionDef, ast.ClassDef)):
+                    continue
+                for fld in ("body", "orelse", "finalbody"):
+                    if has_continue(getattr(x, fld, []) or []):
+                        return True
+                for h in getattr(x, "handlers", []) or []:
+                    if has_continue(h.body):
+                        return True
+            return False
+
+        if has_continue(loop.body):
+            return None
+        call = loop.iter
+        if any(isinstance(a, ast.Starred) for a in call.args) or any(k.arg is None for k in call.keywords):
+            return None
+        params = [a.arg for a in gdef.args.posonlyargs + gdef.args.args]
+        kwonly = [a.arg for a in gdef.args.kwonlyargs]
+        bind = {}
+        if len(call.args) > len(params):
+            return None
+        for p_, a in zip(params, call.args):
+            bind[p_] = a
+        for k in call.keywords:
+            if k.arg in bind or k.arg not in params + kwonly:
+                return None
+            bind[k.arg] = k.value
+        defaults = dict(zip(params[len(params) - len(gdef.args.defaults):], gdef.args.defaults))
+        defaults.update({a: d for a, d in zip(kwonly, gdef.args.kw_defaults) if d is not None})
+        for p_ in params + kwonly:
+            if p_ not in bind:
+                if p_ not in defaults:
+                    return None
+                bind[p_] = defaults[p_]
+        g = copy.deepcopy(gdef)
+        locs = _locals_of(g)
+        assigned = {n.id for n in ast.walk(g) if isinstance(n, ast.Name) and isinstance(n.ctx, ast.Store)}
+        arg_names = {n.id for a in bind.values() for n in ast.walk(a) if isinstance(n, ast.Name)}
+        free = {n.id for n in ast.walk(g) if isinstance(n, ast.Name)} - locs
+        self.counter += 1
+        suffix = f"__{gdef.name.strip('_')}{self.counter}"
+        mapping, pre_assign = {}, []
+        # the yielded variables are the loop variables
+        yv = found["yield"][0].value.value
+        tnames = [loop.target] if isinstance(loop.target, ast.Name) else (list(loop.target.elts) if isinstance(loop.target, ast.Tuple) else [])
+        yvals = [yv] if len(tnames) == 1 else (list(yv.elts) if isinstance(yv, ast.Tuple) else [])
+        if tnames and len(tnames) == len(yvals) and all(isinstance(t, ast.Name) for t in tnames) and all(isinstance(y, ast.Name) and y.id in locs and y.id not in params + kwonly for y in yvals) \
+                and len({y.id for y in yvals}) == len(yvals):
+            tid = [t.id for t in tnames]
+            if not any(t in arg_names or t in free or (t in locs and t not in [y.id for y in yvals]) for t in tid):
+                mapping.update({y.id: t for y, t in zip(yvals, tid)})
+
+        def fresh(nm):
+            if nm not in used_names and nm not in arg_names and nm not in free:
+                used_names.add(nm)
+                return nm
+            return nm + suffix
+
+        for p_, a in bind.items():
+            simple = isinstance(a, (ast.Name, ast.Constant)) or (isinstance(a, ast.Attribute) and isinstance(a.value, ast.Name))
+            if simple and p_ not in assigned:
+                mapping[p_] = None
+            else:
+                mapping[p_] = fresh(p_)
+                pre_assign.append(ast.copy_location(ast.Assign(targets=[ast.Name(id=mapping[p_], ctx=ast.Store())], value=a, lineno=loop.lineno), loop))
+        for l in sorted(locs):
+            if l not in mapping:
+                mapping[l] = fresh(l)
+
+        class Sub(ast.NodeTransformer):
+            def visit_Name(self, n):
+                if n.id in mapping:
+                    if mapping[n.id] is None:
+                        return copy.deepcopy(bind[n.id]) if isinstance(n.ctx, ast.Load) else n
+                    return ast.copy_location(ast.Name(id=mapping[n.id], ctx=n.ctx), n)
+                return n
+
+        gb = [x for x in g.body if not (isinstance(x, ast.Expr) and isinstance(x.value, ast.Constant))]
+        gb = [Sub().visit(x) for x in gb]
+        L2 = gb[-1]
+        consumer = loop.body
+        target = loop.target
+
+        def rewrite(stmts):
+            out = []
+            for x in stmts:
+                if isinstance(x, ast.Expr) and isinstance(x.value, ast.Yield):
+                    tg = copy.deepcopy(target)
+                    out.append(ast.copy_location(ast.Assign(targets=[tg], value=x.value.value, lineno=x.lineno), x))
+                    out.extend(consumer)
+                elif isinstance(x, ast.Return):
+                    out.append(ast.copy_location(ast.Break(), x))
+                elif isinstance(x, ast.If):
+                    x.body = rewrite(x.body)
+                    x.orelse = rewrite(x.orelse)
+                    out.append(x)
+                else:
+                    out.append(x)
+            return out
+
+        L2.body = rewrite(L2.body)
+        res = pre_assign + gb[:-1] + [L2]
+        for r_ in res:
+            ast.copy_location(r_, loop) if not hasattr(r_, "lineno") else None
+            ast.fix_missing_locations(r_)
+        return _tidy(norm_block(_tidy(res)))
+
+    def inline_in_expression(self, node, cls_name):
+        """inside comprehensions and lambdas a call cannot be replaced by statements: helpers that are a single
+        `return <expression>` are substituted as expressions"""
+        inl = self
+        changed = [False]
+
+        class E(ast.NodeTransformer):
+            def visit_Call(self, n):
+                self.generic_visit(n)
+                r = inl.resolve(n, cls_name)
+                if r is None or not inl.eligible(r[0], r[1]):
+                    return n
+                name, fdef, recv = r
+                body = [s for s in fdef.body if not (isinstance(s, ast.Expr) and isinstance(s.value, ast.Constant))]
+                if len(body) != 1 or not isinstance(body[0], ast.Return) or body[0].value is None:
+                    return n
+                if any(isinstance(a, ast.Starred) for a in n.args) or any(k.arg is None for k in n.keywords) or fdef.args.vararg or fdef.args.kwarg:
+                    return n
+                if any(isinstance(x, (ast.Lambda, ast.ListComp, ast.SetComp, ast.DictComp, ast.GeneratorExp, ast.NamedExpr)) for x in ast.walk(body[0].value)):
+                    return n  # own scopes: substitution could capture names
+                params = [a.arg for a in fdef.args.posonlyargs + fdef.args.args]
+                kwonly = [a.arg for a in fdef.args.kwonlyargs]
+                bind, pos = {}, list(params)
+                if recv is not None and pos:
+                    bind[pos[0]] = ast.parse(recv, mode="eval").body
+                    pos = pos[1:]
+                if len(n.args) > len(pos):
+                    return n
+                for p_, a in zip(pos, n.args):
+                    bind[p_] = a
+                for k in n.keywords:
+                    if k.arg in bind or k.arg not in params + kwonly:
+                        return n
+                    bind[k.arg] = k.value
+                defaults = dict(zip(params[len(params) - len(fdef.args.defaults):], fdef.args.defaults))
+                defaults.update({a: d for a, d in zip(kwonly, fdef.args.kw_defaults) if d is not None})
+                for p_ in params + kwonly:
+                    if p_ not in bind:
+                        if p_ not in defaults:
+                            return n
+                        bind[p_] = defaults[p_]
+
+                class S(ast.NodeTransformer):
+                    def visit_Name(self, x):
+                        if x.id in bind and isinstance(x.ctx, ast.Load):
+                            return copy.deepcopy(bind[x.id])
+                        return x
+
+                changed[0] = True
+                return ast.copy_location(S().visit(copy.deepcopy(body[0].value)), n)
+
+        out = E().visit(node)
+        return out, changed[0]
+
+    # -------------------------------------------------------------- NamedTuple values
+    def scalarize(self, fdef):
+        """a local variable that only ever holds values built by one NamedTuple class is replaced by one variable per field
+        (`r = T(a, b)` → `r_f, r_g = a, b`; `r.f` → `r_f`; `r` → `(r_f, r_g)`); other constructor calls become plain tuples"""
+        if not self.tuples:
+            return False
+        inl = self
+        changed = [False]
+
+        class C(ast.NodeTransformer):
+            def visit_Call(self, n):
+                self.generic_visit(n)
+                if isinstance(n.func, ast.Name) and n.func.id in inl.tuples and not any(isinstance(a, ast.Starred) for a in n.args) and not any(k.arg is None for k in n.keywords):
+                    fields = inl.tuples[n.func.id]
+                    vals = {}
+                    if len(n.args) > len(fields):
+                        return n
+                    for (f, _d), a in zip(fields, n.args):
+                        vals[f] = a
+                    for k in n.keywords:
+                        if k.arg in vals or k.arg not in [f for f, _ in fields]:
+                            return n
+                        vals[k.arg] = k.value
+                    for f, d in fields:
+                        if f not in vals:
+                            if d is None:
+                                return n
+                            vals[f] = copy.deepcopy(d)
+                    t = ast.copy_location(ast.Tuple(elts=[vals[f] for f, _ in fields], ctx=ast.Load()), n)
+                    t._nt = n.func.id
+                    changed[0] = True
+                    return t
+                return n
+
+        C().visit(fdef)
+        if not changed[0]:
+            return False
+        stores, ok = {}, {}
+        for st in ast.walk(fdef):
+            if isinstance(st, ast.Assign) and len(st.targets) == 1 and isinstance(st.targets[0], ast.Name) and getattr(st.value, "_nt", None):
+                ok.setdefault(st.targets[0].id, set()).add(st.value._nt)
+                stores.setdefault(st.targets[0].id, []).append(st.targets[0])
+        names = {}
+        for nm, kinds in ok.items():
+            all_stores = [n for n in ast.walk(fdef) if isinstance(n, ast.Name) and n.id == nm and not isinstance(n.ctx, ast.Load)]
+            params = any(a.arg == nm for x in ast.walk(fdef) if isinstance(x, ast.arguments) for a in x.posonlyargs + x.args + x.kwonlyargs)
+            if len(kinds) == 1 and len(all_stores) == len(stores[nm]) and not params:
+                names[nm] = next(iter(kinds))
+        if not names:
+            return True
+        fieldvar = {}
+        for nm, kind in names.items():
+            for f, _ in self.tuples[kind]:
+                v = f"{nm}_{f}"
+                while v in self.taken:
+                    v += "_"
+                self.taken.add(v)
+                fieldvar[(nm, f)] = v
+
+        class R(ast.NodeTransformer):
+            def visit_Assign(self, st):
+                self.generic_visit(st)
+                if len(st.targets) == 1 and isinstance(st.targets[0], ast.Name) and st.targets[0].id in names and getattr(st.value, "_nt", None):
+                    nm = st.targets[0].id
+                    tgt = ast.Tuple(elts=[ast.Name(id=fieldvar[(nm, f)], ctx=ast.Store()) for f, _ in inl.tuples[names[nm]]], ctx=ast.Store())
+                    return ast.fix_missing_locations(ast.copy_location(ast.Assign(targets=[tgt], value=st.value, lineno=st.lineno), st))
+                return st
+
+            def visit_Attribute(self, n):
+                if isinstance(n.value, ast.Name) and n.value.id in names and isinstance(n.ctx, ast.Load) and (n.value.id, n.attr) in fieldvar:
+                    return ast.copy_location(ast.Name(id=fieldvar[(n.value.id, n.attr)], ctx=ast.Load()), n)
+                self.generic_visit(n)
+                return n
+
+            def visit_Subscript(self, n):
+                if isinstance(n.value, ast.Name) and n.value.id in names and isinstance(n.ctx, ast.Load) and isinstance(n.slice, ast.Constant) and isinstance(n.slice.value, int):
+                    fs = inl.tuples[names[n.value.id]]
+                    if -len(fs) <= n.slice.value < len(fs):
+                        return ast.copy_location(ast.Name(id=fieldvar[(n.value.id, fs[n.slice.value][0])], ctx=ast.Load()), n)
+                self.generic_visit(n)
+                return n
+
+            def visit_Name(self, n):
+                if n.id in names and isinstance(n.ctx, ast.Load):
+                    return ast.copy_location(ast.Tuple(elts=[ast.Name(id=fieldvar[(n.id, f)], ctx=ast.Load()) for f, _ in inl.tuples[names[n.id]]], ctx=ast.Load()), n)
+                return n
+
+        R().visit(fdef)
+        return True
 
     # -------------------------------------------------------------- per function
     def inline_function(self, fdef, cls_name):
@@ -640,10 +1323,17 @@ class Inliner:
 
             class H(ast.NodeTransformer):
                 def visit_Lambda(self, n):
-                    return n
+                    n2, ch = inl.inline_in_expression(n, cls_name)
+                    if ch:
+                        changed[0] = True
+                    return n2
 
                 def visit_ListComp(self, n):
-                    return n  # the call depends on the comprehension variable
+                    # the call depends on the comprehension variable: only expression helpers can be substituted
+                    n2, ch = inl.inline_in_expression(n, cls_name)
+                    if ch:
+                        changed[0] = True
+                    return n2
 
                 visit_SetComp = visit_DictComp = visit_GeneratorExp = visit_ListComp
 
@@ -744,7 +1434,8 @@ class Inliner:
                 keep = True
                 store = lambda v, at_: [ast.copy_location(ast.Return(value=v), at_)]
             if call is not None:
-                rep = self.expand_call(call, cls_name, store, keep, s)
+                rt = s.targets[0] if isinstance(s, ast.Assign) else (s.target if isinstance(s, ast.AnnAssign) else None)
+                rep = self.expand_call(call, cls_name, store, keep, s, ret_target=rt)
                 if rep is not None:
                     changed[0] = True
                     rep = norm_block(rep)
@@ -753,10 +1444,25 @@ class Inliner:
 
         # helpers defined inside this function that the reference tree does not know
         nested = {}
+        outer_taken = self.taken
+        if self.depth == 0:
+            self.prepare(fdef, cls_name)
+            # names in use in this function; the bodies of nested helpers that will be inlined (and removed) do not count
+            helpers = [x for x in ast.walk(fdef) if isinstance(x, ast.FunctionDef) and x is not fdef and x.name not in NESTED_ANCHORS
+                       and all(_decorator_kind(d) == "plain" for d in x.decorator_list)]
+            skip = set()
+            for h in helpers:
+                hl = _locals_of(h)
+                for n in ast.walk(h):
+                    if n is not h and (isinstance(n, ast.Name) and n.id in hl or isinstance(n, ast.arguments)):
+                        skip.add(id(n))
+            self.taken = {n.id for n in ast.walk(fdef) if isinstance(n, ast.Name) and id(n) not in skip} | {a.arg for n in ast.walk(fdef) if isinstance(n, ast.arguments) and id(n) not in skip
+                                                                                                           for a in n.posonlyargs + n.args + n.kwonlyargs + [x for x in (n.vararg, n.kwarg) if x]}
+        self.depth += 1
         call_funcs = {id(c.func) for c in ast.walk(fdef) if isinstance(c, ast.Call)}
         for blk in _blocks_no_nested(fdef):
             for x in blk:
-                if isinstance(x, ast.FunctionDef) and x.name not in NESTED_ANCHORS and not x.decorator_list:
+                if isinstance(x, ast.FunctionDef) and x.name not in NESTED_ANCHORS and all(_decorator_kind(d) == "plain" for d in x.decorator_list):
                     uses = [n for n in ast.walk(fdef) if isinstance(n, ast.Name) and n.id == x.name and isinstance(n.ctx, ast.Load)]
                     if uses and all(id(u) in call_funcs for u in uses):
                         nested[x.name] = x
@@ -766,6 +1472,11 @@ class Inliner:
             fdef.body = do_block(fdef.body)
         finally:
             self.local = saved
+            self.depth -= 1
+        if self.depth == 0:
+            if self.scalarize(fdef):
+                fdef.body = norm_block(fdef.body)
+            self.taken = outer_taken
         if nested:
             still = {n.id for n in ast.walk(fdef) if isinstance(n, ast.Name) and isinstance(n.ctx, ast.Load)}
             gone = {nm for nm in nested if nm not in still}
@@ -773,6 +1484,27 @@ class Inliner:
                 for blk in _blocks_no_nested(fdef):
                     blk[:] = [x for x in blk if not (isinstance(x, ast.FunctionDef) and x.name in gone)] or [ast.Pass()]
         return changed[0]
+
+
+class ConstFold(ast.NodeTransformer):
+    """'a' + 'b' → 'ab' (keys spelled as a concatenation after a table loop was unrolled)"""
+
+    def visit_BinOp(self, n):
+        self.generic_visit(n)
+        if isinstance(n.op, ast.Add) and isinstance(n.left, ast.Constant) and isinstance(n.right, ast.Constant) and isinstance(n.left.value, str) and isinstance(n.right.value, str):
+            return ast.copy_location(ast.Constant(value=n.left.value + n.right.value), n)
+        return n
+
+    def visit_FormattedValue(self, n):
+        n.value = self.visit(n.value)  # the format specification stays a JoinedStr
+        return n
+
+    def visit_JoinedStr(self, n):
+        self.generic_visit(n)
+        if n.values and all(isinstance(v, ast.Constant) and isinstance(v.value, str) or (isinstance(v, ast.FormattedValue) and isinstance(v.value, ast.Constant)
+                                                                                         and isinstance(v.value.value, str) and v.conversion == -1 and v.format_spec is None) for v in n.values):
+            return ast.copy_location(ast.Constant(value="".join(v.value if isinstance(v, ast.Constant) else v.value.value for v in n.values)), n)
+        return n
 
 
 def inline_module(tree: ast.Module) -> ast.Module:
